@@ -1665,3 +1665,8 @@ TABLE["C11"] += [
 TABLE["C06"] += [
     B("shape-tests-chosen-by-matlab-class", {"M2"}, (MW, "            if name == 'Point2':\n                check_statement +=", "            if check_type == 'Point2':\n                check_statement +=")),
 ]
+TK = IP + "tokens.py"
+TABLE["C12"] += [
+    B("operator-symbol-as-a-character-run", {"L2"}, (TK, "OPERATOR = Or(\n    map(\n        Literal,\n        [", "OPERATOR = Word(\"+-*/%^&|<>=!~\") ^ Or(\n    map(\n        Literal,\n        [")),
+    N("identifier-run-with-explicit-body", (TK, "IDENT = Word(alphas + '_', alphanums + '_')", "IDENT = Word(alphas + '_', bodyChars=alphanums + '_')")),
+]
